@@ -434,3 +434,10 @@ PROPS = {
     "C16": c16,
     "C19": c19,
 }
+
+# property checks built in separate modules (bin/props_<name>.py exporting PROPS)
+import glob as _glob
+import importlib as _importlib
+for _f in sorted(_glob.glob(os.path.join(os.path.dirname(os.path.abspath(__file__)), "props_*.py"))):
+    _m = _importlib.import_module(os.path.basename(_f)[:-3])
+    PROPS.update(getattr(_m, "PROPS", {}))
